@@ -208,3 +208,79 @@ pub fn replay_comment(path: &str, out: &mut impl Write) -> (u64, u64) {
     }
     (n, bad)
 }
+
+/// Reconstructor behaviours of MC_Recon: {"cfg": {crlf, tabs, tw, ci}, "toks": [{kind, text, ws, ign, nl, ind, cont, sp}], "out": [...]}.
+/// The real reconstructor is run on the same final token table (built through the public API); its output must be the
+/// model's (C09 / C10: the rendering arithmetic and the line ending are pinned down by the properties).
+pub fn replay_recon(path: &str, out: &mut impl Write) -> (u64, u64) {
+    use pasfmt::FormattingConfig;
+    use pasfmt_core::prelude::*;
+    let f = std::io::BufReader::new(std::fs::File::open(path).expect("behaviours file"));
+    let (mut n, mut bad) = (0u64, 0u64);
+    for line in f.lines() {
+        let line = line.unwrap();
+        if line.trim().is_empty() {
+            continue;
+        }
+        let v: Value = serde_json::from_str(&line).expect("behaviour json");
+        n += 1;
+        let c = &v["cfg"];
+        let cfg = Cfg {
+            line_ending: if c["crlf"].as_bool().unwrap() { "crlf".into() } else { "lf".into() },
+            use_tabs: c["tabs"].as_bool().unwrap(),
+            tab_width: c["tw"].as_u64().unwrap() as u8,
+            continuation_indents: c["ci"].as_u64().unwrap() as u8,
+            ..Cfg::default()
+        };
+        let fc: FormattingConfig = serde_json::from_value(serde_json::to_value(&cfg).unwrap()).unwrap();
+        let rs: ReconstructionSettings = (&fc).into();
+        let recon = DelphiLogicalLinesReconstructor::new(rs);
+        let specs: Vec<&Value> = v["toks"].as_array().unwrap().iter().collect();
+        let contents: Vec<(String, usize)> = specs.iter().map(|t| { let ws = text_of(&t["ws"]); let tx = text_of(&t["text"]); (format!("{ws}{tx}"), ws.len()) }).collect();
+        let got = guarded(|| {
+            let mut tokens: Vec<Token> = specs
+                .iter()
+                .zip(&contents)
+                .map(|(t, (content, ws_len))| {
+                    let tt = match t["kind"].as_str().unwrap() {
+                        "word" => TokenType::Identifier,
+                        "linecomment" => TokenType::Comment(CommentKind::InlineLine),
+                        "block" => TokenType::Comment(CommentKind::InlineBlock),
+                        _ => TokenType::Eof,
+                    };
+                    Token::new_ref(content, *ws_len as u32, tt)
+                })
+                .collect();
+            let mut marker = TokenMarker::default();
+            for (i, t) in specs.iter().enumerate() {
+                if t["ign"].as_bool().unwrap() {
+                    marker.mark(i);
+                }
+            }
+            let mut ft = FormattedTokens::new_from_tokens(&mut tokens, &marker);
+            for (i, t) in specs.iter().enumerate() {
+                let d = ft.get_formatting_data_mut(i).unwrap();
+                d.newlines_before = t["nl"].as_u64().unwrap() as u16;
+                d.indentations_before = t["ind"].as_u64().unwrap() as u16;
+                d.continuations_before = t["cont"].as_u64().unwrap() as u16;
+                d.spaces_before = t["sp"].as_u64().unwrap() as u16;
+            }
+            let mut buf = String::new();
+            recon.reconstruct(ft, &mut buf);
+            buf
+        });
+        let want = text_of(&v["out"]);
+        match got {
+            Ok(g) if g == want => {}
+            Ok(g) => {
+                bad += 1;
+                let _ = writeln!(out, "{}", json!({"t": "mismatch", "kind": "recon", "cfg": v["cfg"], "toks": v["toks"], "spec": want, "impl": g}));
+            }
+            Err(p) => {
+                bad += 1;
+                let _ = writeln!(out, "{}", json!({"t": "mismatch", "kind": "recon", "cfg": v["cfg"], "toks": v["toks"], "spec": want, "impl": {"panic": p}}));
+            }
+        }
+    }
+    (n, bad)
+}
